@@ -76,6 +76,8 @@ enum Job {
     SeedOn(String, u64),
     /// `count` consecutive seeds in one child process
     Batch(u64, usize),
+    /// the same on a named engine
+    BatchOn(String, u64, usize),
     TraceFile(PathBuf, String),
 }
 
@@ -186,6 +188,14 @@ fn run_pool(
                     }
                     let child = child_cmd(&args, hash_seed_for(first)).spawn().expect("spawn child");
                     running.push(Running { child, label: format!("batch {first}+{count}"), started: Instant::now() });
+                }
+                Some(Job::BatchOn(eng, first, count)) => {
+                    let mut args = vec!["many".to_string(), eng.clone(), prop.to_string(), first.to_string(), count.to_string()];
+                    if thorough {
+                        args.push("--thorough".into());
+                    }
+                    let child = child_cmd(&args, hash_seed_for(first)).spawn().expect("spawn child");
+                    running.push(Running { child, label: format!("batch {first}+{count} ({eng})"), started: Instant::now() });
                 }
                 Some(Job::TraceFile(p, label)) => {
                     let hs = std::fs::read_to_string(&p)
@@ -393,7 +403,13 @@ pub fn check(spec: &PropSpec, thorough: bool, base_seed: u64, max_runs: Option<u
             break;
         }
         if engines.len() > 1 {
-            jobs.push(Job::SeedOn(engines[(i as usize) % engines.len()].to_string(), first_seed.wrapping_add(i)));
+            let e = engines[(i as usize) % engines.len()];
+            // the first engine of a multi-engine check may run in batches
+            if spec.batch > 1 && e == engines[0] {
+                jobs.push(Job::BatchOn(e.to_string(), first_seed.wrapping_add(i.wrapping_mul(spec.batch as u64 + 1)), spec.batch));
+            } else {
+                jobs.push(Job::SeedOn(e.to_string(), first_seed.wrapping_add(i)));
+            }
         } else {
             jobs.push(Job::Seed(first_seed.wrapping_add(i)));
         }
